@@ -13,7 +13,7 @@ import numpy as np
 
 from ..models import voltage as mv
 from ..seams import _REAL_DEFAULT_RNG
-from ..core import ulp as core_ulp, InjectedCallbackError
+from ..core import ulp as core_ulp, InjectedCallbackError, gen_seed
 
 ID = "C10"
 WORLD = "stream"
@@ -102,7 +102,7 @@ def generate(rng, tier):
             ops.append({"op": "update_noise", "m": rng.choice([1, 10, 100, 1000]), "pol": rng.randrange(pols)})
     return {"seams": {"entropy_salt": rng.randrange(1 << 20), "scratch": "c10"},
             "cfg": {"kind": kind, "fs": fs, "fch1": fch1, "ascending": ascending, "t_start": t_start,
-                    "seed": rng.randrange(1 << 30), "pols": pols, "dyadic": dyadic, "sources": srcs},
+                    "seed": gen_seed(rng), "pols": pols, "dyadic": dyadic, "sources": srcs},
             "ops": ops}
 
 
